@@ -4,4 +4,4 @@ open Driver
 /-- families of area "toast" -/
 def main (args : List String) : IO UInt32 :=
   run [Fam.Toast.toastptr, Fam.Toast.toastrel, Fam.Toast.toastrel2, Fam.Toast.pglz, Fam.Toast.lz4, Fam.Toast.lz4go, Fam.Toast.pglzgo,
-       Fam.Toast.toaststats, Fam.Toast.toastmut] args
+       Fam.Toast.toaststats, Fam.Toast.toastrepeat, Fam.Toast.toastties, Fam.Toast.toastunhinted, Fam.Toast.toastmut] args
